@@ -194,7 +194,8 @@ func solveAll(vc *VC, axioms *AxiomSet, todo []*Obligation, cfg *CheckConfig) []
 			or := &OblResult{Obl: o, Res: r}
 			switch {
 			case o.Cover:
-				or.OK = r.Status == "sat" || r.Status == "unknown" // unknown: quantified hypotheses; not refuted
+				// only "unsat" refutes reachability; unknown / timeout (quantified hypotheses, load) do not
+				or.OK = r.Status == "sat" || r.Status == "unknown" || r.Status == "timeout"
 				or.Status = map[bool]string{true: "cover-ok", false: "cover-failed"}[or.OK]
 			case o.Canary:
 				or.OK = r.Status != "unsat"
@@ -437,6 +438,71 @@ func RunCheck(p *Program, cfg *CheckConfig, seed int) int {
 					_ = os.Remove(strings.TrimSuffix(r.path, ".json") + ".witness_test.go.txt")
 				}
 			}
+		}
+	}
+	// bounded differential checks kept as Go tests under <verif>/bounded (header: "// lhv-bounded property=Cxx name=... bound=...");
+	// they exercise functions that are outside the modelled subset on the real code, for every input up to the stated
+	// bound, against an oracle taken from the property - labelled bounded, never counted as obligations
+	if cfg.Only == "" || os.Getenv("LHV_BOUNDED") != "" {
+		files, _ := filepath.Glob(filepath.Join(cfg.VerifDir, "bounded", "*.go.txt"))
+		sort.Strings(files)
+		for _, f := range files {
+			data, err := os.ReadFile(f)
+			if err != nil {
+				continue
+			}
+			first := strings.SplitN(string(data), "\n", 2)[0]
+			if !strings.Contains(first, "lhv-bounded") || !strings.Contains(first, "property="+cfg.Property+" ") {
+				continue
+			}
+			name := filepath.Base(f)
+			boundTxt := ""
+			if i := strings.Index(first, "bound="); i >= 0 {
+				boundTxt = first[i+6:]
+			}
+			sub := filepath.Join(cfg.WorkDir, "bounded-"+name)
+			_ = os.MkdirAll(sub, 0o755)
+			out, ok := runGoTestOverlay(p.RepoDir, f, sub)
+			res := "holds for every enumerated input"
+			if !ok {
+				// failure lines "[known:KEY] ..." belong to a failure class the test itself singles out; such a class counts
+				// as a known finding only if known_findings.json lists <name>#bounded[KEY] as open; every other line is a violation
+				base := strings.TrimSuffix(name, "_test.go.txt")
+				var unknown, knownMsgs []string
+				for _, l := range strings.Split(out, "\n") {
+					i := strings.Index(l, "zz_lhv_replay_test.go:")
+					if i < 0 {
+						continue
+					}
+					m := strings.TrimSpace(l[i+len("zz_lhv_replay_test.go:"):])
+					if j := strings.Index(m, "[known:"); j >= 0 {
+						if e := strings.Index(m[j:], "]"); e > 0 {
+							key := m[j+7 : j+e]
+							if k := kf.Match(cfg.Property, base+"#bounded["+key+"]"); k != nil {
+								knownMsgs = append(knownMsgs, fmt.Sprintf("KNOWN-FINDING: property=%s %s [%s#bounded[%s]]", cfg.Property, k.What, base, key))
+								continue
+							}
+						}
+					}
+					unknown = append(unknown, m)
+				}
+				lines = append(lines, knownMsgs...)
+				known += len(knownMsgs)
+				if len(unknown) > 0 || len(knownMsgs) == 0 {
+					msg := ""
+					if len(unknown) > 0 {
+						msg = unknown[0]
+					}
+					violations++
+					exit = 1
+					res = "fails: " + truncate(msg, 200)
+					lines = append(lines, fmt.Sprintf("VIOLATION property=%s replay=%s obligation=%s#bounded status=fails replayed-on-the-real-code: %s", cfg.Property, f, base, truncate(msg, 200)))
+				} else {
+					res = "holds for every enumerated input outside the recorded known finding(s)"
+				}
+			}
+			bounded = append(bounded, map[string]interface{}{"function": name, "stands_in_for": "functions outside the modelled subset (see the test's header)", "result": res,
+				"how": "Go test with an oracle taken from the property, run on the real code with go test -overlay; bound: " + boundTxt + " (bounded, not a proof)"})
 		}
 	}
 	for _, o := range orphaned {
